@@ -7,9 +7,11 @@ from props_derive import histories, wf_lines, wf_judge
 
 
 def io_histories(tier, rng, n):
-    for c in histories(tier, rng, n):
+    for j, c in enumerate(histories(tier, rng, n)):
         if c["ids"] == "mix":
             c["ids"] = "str"
+        elif c["ids"] == "int" and j % 5 == 2:
+            c["ids"] = "dstr"      # digit strings: the same tokens as integer ids, another node type
         yield c
 
 
@@ -24,12 +26,14 @@ def pres_keys(directed, pres):
 class C09:
     id = "C09"
     chunk = 60
+    pollute_rate = 0.1
 
     @staticmethod
     def cases(tier, rng):
         n = 1200 if tier == "quick" else 15000
         k = 0
         long_cases = [hist_case(d, True, [["add", 1, 2, 0, 1100 + 37 * d], ["add", 2, 3, 5, None], ["add", 2, 1, 1200, 1230]], src="corpus-long") for d in (0, 1)]
+        long_cases.append(hist_case(1, True, [["add", 1, 2, 0, 9100], ["add", 2, 1, 40, 45]], src="corpus-long"))
         import itertools as _it
         for c in _it.chain(long_cases, io_histories(tier, rng, n)):
             c["io"] = [k % 4, (k // 4) % 4, (k // 16) % 2]   # target, delimiter, encoding: all 32 combinations cycle
@@ -137,6 +141,7 @@ def random_log(rng, directed):
 class C10:
     id = "C10"
     chunk = 60
+    pollute_rate = 0.1
 
     @staticmethod
     def cases(tier, rng):
@@ -212,6 +217,7 @@ class C10:
 class C11:
     id = "C11"
     chunk = 60
+    pollute_rate = 0.1
 
     @staticmethod
     def cases(tier, rng):
@@ -270,9 +276,7 @@ class C11:
             if Q != P:
                 bad = sorted(k for k in set(P) | set(Q) if P.get(k) != Q.get(k))[:3]
                 fails.append(F("C11.presence", where=nm, pairs=[[list(k), sorted(P.get(k, [])), sorted(Q.get(k, []))] for k in bad]))
-        if r2 == "E:VE" and case["dflt"] != case["cls"]:
-            pass      # directed data read as an undirected graph (caller's choice) may violate the start order
-        elif r2 != "ok" or oracles.is_err(dump2):
+        if r2 != "ok" or oracles.is_err(dump2):
             fails.append(F("C11.raised", where="no directed field", got=r2))
         elif dump2["cls"] != case["dflt"]:
             fails.append(F("C11.directed_default", expected=case["dflt"], got=dump2["cls"]))
@@ -355,6 +359,7 @@ def noisy_file(rng, kind, delim, directed=False):
 class C18:
     id = "C18"
     chunk = 100
+    pollute_rate = 0.1
 
     @staticmethod
     def cases(tier, rng):
